@@ -64,3 +64,26 @@ def tier1_problems(tier, rng):
     yield {"n": 0, "up": [], "dw": [], "lf": [], "rg": []}
     yield {"n": 2, "up": [1, 2], "dw": [0], "lf": [0, 0], "rg": [0, 0]}
     yield {"n": 2, "up": [0, 0], "dw": [0, 0], "lf": [0, 0], "rg": [2]}
+
+
+def _visible(line):
+    top, k = 0, 0
+    for v in line:
+        if v > top:
+            top, k = v, k + 1
+    return k
+
+
+def big(tier, rng):
+    """n = 10..12 with two-digit clues: the cyclic Latin square (row i = i+1, i+2, ..., wrapping); its first row and
+    first column are ascending, so they are seen completely (clue n)"""
+    th = tier == "thorough"
+    for n in ((10, 11, 12) if th else (10, rng.choice([11, 12]))):
+        g = [[(i + j) % n + 1 for j in range(n)] for i in range(n)]
+        cols = [[g[y][x] for y in range(n)] for x in range(n)]
+        up = [_visible(c) for c in cols]
+        dw = [_visible(c[::-1]) for c in cols]
+        lf = [_visible(r) for r in g]
+        rg = [_visible(r[::-1]) for r in g]
+        keep = lambda v: [x if (x >= 10 or rng.random() < 0.5) else 0 for x in v]  # noqa
+        yield {"n": n, "up": keep(up), "dw": keep(dw), "lf": keep(lf), "rg": keep(rg), "planted": [L.flat(g)]}
